@@ -367,11 +367,6 @@ func runSeq(sc SeqCase, dumpEvery int, wantK bool) (out seqOutcome) {
 			if o.Force {
 				r.inForceClose = true
 			}
-			if !r.closed {
-				// Cache.GetStats dereferences the (nil) table head after Close: read the counters before
-				st := r.c.GetStats()
-				grows, shrinks = int(st.GrowCount), int(st.ShrinkCount)
-			}
 			r.c.Close(o.Force)
 			r.inForceClose = false
 			if !r.closed {
@@ -530,7 +525,8 @@ func runSeq(sc SeqCase, dumpEvery int, wantK bool) (out seqOutcome) {
 			r.stats["ended_closed_all_released"]++
 		}
 	}
-	if !r.closed {
+	{
+		// also after Close (GetStats used to dereference the nil table head there)
 		st := r.c.GetStats()
 		grows, shrinks = int(st.GrowCount), int(st.ShrinkCount)
 	}
